@@ -29,6 +29,11 @@ _MODULE_ALIASES = frozenset(("np", "numpy", "re", "io", "os", "sys", "math", "nx
 _DYNAMIC_NAMES = frozenset(("exec", "eval", "compile", "__import__", "locals", "vars", "globals", "setattr", "delattr", "breakpoint",
                             "memoryview", "super"))
 _DYNAMIC_MODULES = frozenset(("inspect", "operator", "ctypes", "gc", "importlib", "types", "weakref", "threading", "asyncio", "pickle", "marshal", "dis"))
+# functions of `operator` that change an argument in place or call something by name (the pure ones - or_, add, itemgetter - are
+# ordinary library calls)
+_OPERATOR_WRITERS = frozenset(("iadd", "isub", "imul", "itruediv", "ifloordiv", "imod", "ipow", "iand", "ior", "ixor", "ilshift", "irshift",
+                               "imatmul", "iconcat", "setitem", "delitem", "methodcaller", "attrgetter", "call", "__setitem__", "__delitem__",
+                               "__iadd__", "__isub__", "__imul__", "__ior__", "__iand__", "__ixor__", "__iconcat__"))
 _DUNDER_OK = frozenset(("__init__", "__name__", "__qualname__", "__doc__", "__module__", "__version__", "__file__", "__all__", "__path__"))
 
 _NODE_KINDS = {"Match": "match", "TryStar": "except*", "AsyncFunctionDef": "async", "AsyncFor": "async", "AsyncWith": "async",
@@ -87,7 +92,13 @@ def _count_into(c, kind):
 
 def _scan(node, c, in_function, protected):
     """constructs below `node` (a function, or one statement of a module / class body that is no def / class)"""
+    # operator.methodcaller("replace", ..) with a literal name of a method that only reads is an ordinary call
+    from .alias import PURE_METHODS
+    harmless = {id(x.func) for x in ast.walk(node) if isinstance(x, ast.Call) and isinstance(x.func, ast.Attribute) and x.func.attr == "methodcaller"
+                and x.args and isinstance(x.args[0], ast.Constant) and x.args[0].value in PURE_METHODS}
     for x in ast.walk(node):
+        if id(x) in harmless:
+            continue
         k = _NODE_KINDS.get(type(x).__name__)
         if k and not (x is node and isinstance(x, ast.AsyncFunctionDef) and False):
             _count_into(c, "node:" + k)
@@ -113,7 +124,8 @@ def _scan(node, c, in_function, protected):
             if d:
                 head = d.split(".")[0]
                 if head in _DYNAMIC_MODULES and isinstance(x, ast.Attribute) and isinstance(x.value, ast.Name):
-                    _count_into(c, "call:" + head + ".*")
+                    if head != "operator" or x.attr in _OPERATOR_WRITERS:
+                        _count_into(c, "call:" + head + ".*")
                 if d in ("sys._getframe", "sys.modules", "sys.settrace", "functools.partial", "functools.partialmethod", "functools.singledispatch",
                          "functools.wraps", "functools.update_wrapper"):
                     _count_into(c, "call:" + d)
@@ -164,7 +176,10 @@ def _scope_rebinds(body, c):
 def census(tree, decorators=True):
     """{key: {kind: count}}; key = "<module>", a class qualname (its body outside methods) or the qualname of an outermost function"""
     out = {}
-    mod_names = _module_names(tree)
+    # module-level names a function must not shadow unseen: constants and private tables / helpers (the rules evaluate them and the
+    # undo passes substitute them); a local that merely shares its spelling with a public function of the module (`coord`, `array`,
+    # `dtype`) is ordinary code - the alias model treats a local that is called as a local callable
+    mod_names = {n for n in _module_names(tree) if n.isupper() or n.startswith("_")}
     inside = _BUILTINS | _MODULE_ALIASES | mod_names
 
     def scope(body, key, prefix):
